@@ -34,6 +34,9 @@ func c02run(r *hk.Reporter, c *c02case) {
 		return
 	}
 	got := strings.Join(model.Rejected, ",")
+	if len(model.Rejected) > 16 {
+		got = fmt.Sprintf("%dx%s", len(model.Rejected), model.Rejected[0])
+	}
 	if c.plan != "random" && c.plan != got {
 		r.Inconclusive(fmt.Sprintf("c02: stream constructed for [%s] but the model rejects [%s]", c.plan, got))
 		return
@@ -44,7 +47,11 @@ func c02run(r *hk.Reporter, c *c02case) {
 	var rr, ss []byte
 	var err error
 	p, msg, _, _ := hk.Try(func() { rr, ss, err = SignHashed(rd, c.priv, c.e) })
-	detail := hk.D{"priv": hk.Hex(c.priv), "e": hk.Hex(c.e), "stream": hk.Hex(c.stream[:model.Consumed]), "chunk": c.chunk,
+	shown := c.stream[:model.Consumed]
+	if len(shown) > 4096 {
+		shown = shown[len(shown)-4096:] // the last candidates of a very long stream
+	}
+	detail := hk.D{"priv": hk.Hex(c.priv), "e": hk.Hex(c.e), "stream": hk.Hex(shown), "stream_bytes_consumed_by_model": model.Consumed, "chunk": c.chunk,
 		"model_rejects": model.Rejected, "model_r": hk.Hex(ref.B32(model.R)), "model_s": hk.Hex(ref.B32(model.S)),
 		"got_r": hexOrNil(rr), "got_s": hexOrNil(ss), "err": errStr(err), "consumed": rd.off, "model_consumed": model.Consumed}
 	cls := "rejects=[" + got + "]"
@@ -163,6 +170,19 @@ func TestVerifC02(t *testing.T) {
 		}
 		stream := append(append(ref.B32(k), ref.B32(randScalar(rng))...), rng.Bytes(32*4)...)
 		cases = append(cases, &c02case{d: d, priv: ref.B32(d), e: e, stream: stream, chunk: chunks[rng.Intn(len(chunks))], plan: "random", label: "montgomery-pattern-" + kind})
+	}
+	// VERY long runs of rejected candidates before the first acceptable one: the standard puts no bound on
+	// the number of redraws (2^20+3 candidates = 32 MiB of stream; 2^22+1 in the thorough tier)
+	for _, nrej := range []int{1<<20 + 3, hk.N(1<<16+1, 1<<22+1)} {
+		d := keys[nrej%len(keys)]
+		stream := bytes.Repeat([]byte{0xff}, 32*nrej)
+		if nrej%2 == 1 {
+			for i := 0; i < nrej; i += 3 {
+				copy(stream[32*i:], make([]byte, 32)) // k = 0 mixed in
+			}
+		}
+		stream = append(append(stream, ref.B32(randScalar(rng))...), rng.Bytes(64)...)
+		cases = append(cases, &c02case{d: d, priv: ref.B32(d), e: rng.Bytes(32), stream: stream, chunk: 0, plan: "random", label: "long-rejection-run"})
 	}
 	// (b) the rule matrix: 0..3 range rejects, then optionally one digest-dependent
 	// rule (r=0 | r+k=n | s=0), then valid candidates
